@@ -17,6 +17,7 @@ import (
 	"strconv"
 	"strings"
 	"sync"
+	"syscall"
 	"sync/atomic"
 	"testing"
 	"time"
@@ -575,12 +576,22 @@ func FuzzJudge(t *testing.T, id, sub string, c any, err error) {
 	t.Fatalf("%v", err)
 }
 
+var fuzzStderr sync.Once
+
 // FuzzRapid turns a rapid generator + decider into a native fuzz target: the
 // fuzzer's bytes drive rapid's draws (coverage-guided search over the same
 // structured generator), the same Run decides, and failures are saved as
 // ordinary replay files.
 func FuzzRapid[C any](f *testing.F, id, sub string, gen func(*rapid.T) C, run func(C) error) {
 	f.Fuzz(rapid.MakeFuzz(func(t *rapid.T) {
+		fuzzStderr.Do(func() {
+			// fuzz workers run with stderr discarded: a runtime fatal error would leave no trace
+			if dir := os.Getenv("VERIF_FUZZ_STDERR"); dir != "" {
+				if fh, err := os.OpenFile(filepath.Join(dir, fmt.Sprintf("fuzz-stderr-%d.log", os.Getpid())), os.O_CREATE|os.O_WRONLY|os.O_APPEND, 0o644); err == nil {
+					syscall.Dup3(int(fh.Fd()), 2, 0)
+				}
+			}
+		})
 		c := gen(t)
 		err := safeRun(run, c)
 		if err == nil {
